@@ -8,6 +8,7 @@ import sys, os, json, time, importlib, subprocess, threading, queue, shutil, has
 ROOT = os.path.dirname(os.path.dirname(os.path.abspath(__file__)))
 PY = "/venv/bin/python"
 NJOBS = int(os.environ.get("VERIF_JOBS", "16"))
+HASHSEED = {"value": 0}
 
 
 def load_known():
@@ -54,8 +55,10 @@ class ChunkRun:
                 json.dump(pending, f)
             open(out, "w").close()
             with open(err, "w") as ef:
+                # the library iterates over sets of strings/tuples in places (trusted edges, safe sequences): the workers' hash seed is part of
+                # the explored space. It follows VERIF_SEED (0 = hashing not randomised), and a replay uses the recorded value.
                 proc = subprocess.Popen([PY, "-X", "faulthandler", "-m", "fpverif.worker", self.pid, inp, out],
-                                        stdout=ef, stderr=ef, cwd=ROOT)
+                                        stdout=ef, stderr=ef, cwd=ROOT, env=dict(os.environ, PYTHONHASHSEED=str(HASHSEED["value"])))
             killed_case = None
             last_start = time.time()
             cur = None
@@ -185,6 +188,7 @@ def main(argv=None):
     if tier not in ("quick", "thorough"):
         print(f"bad tier {tier}"); return 2
     seed = int(os.environ.get("VERIF_SEED", "0") or 0)
+    HASHSEED["value"] = int(os.environ.get("FPVERIF_HASHSEED", seed)) % 4294967296
     mod = importlib.import_module(f"fpverif.props.{pid.lower()}")
     known = load_known()
     t0 = time.time()
@@ -192,6 +196,8 @@ def main(argv=None):
     if a.replay:
         with open(a.replay) as f:
             case = json.load(f)
+        if "hashseed" in case and "FPVERIF_HASHSEED" not in os.environ:
+            HASHSEED["value"] = int(case["hashseed"])
         case = case.get("case", case)
         case["id"] = 0
         res = run_cases(pid, [case], getattr(mod, "CASE_TIMEOUT", {"quick": 180, "thorough": 900})["thorough"], jobs=1)[0]
@@ -269,7 +275,7 @@ def main(argv=None):
                 n += 1
                 path = os.path.join(replay_dir, f"{tier}-s{seed}-{n}.json")
                 with open(path, "w") as f:
-                    json.dump({"property": pid, "sig": sig, "msg": v.get("msg"), "detail": v.get("detail"), "case": v.get("replay") or {k: x for k, x in c.items() if k != "id"}}, f, indent=1, default=str)
+                    json.dump({"property": pid, "sig": sig, "msg": v.get("msg"), "detail": v.get("detail"), "hashseed": HASHSEED["value"], "case": v.get("replay") or {k: x for k, x in c.items() if k != "id"}}, f, indent=1, default=str)
                 viol_lines.append(f"VIOLATION property={pid} replay={os.path.relpath(path, ROOT)}")
                 print(f"  [{sig}] {v.get('msg','')}"[:600])
     for key, cnt in sorted(known_seen.items()):
@@ -298,6 +304,7 @@ def main(argv=None):
             "rule": getattr(mod, "RULE", ""),
             "samples": samples[:6],
             "monitor_observations": dict(sorted(obs.items())),
+            "worker_hash_seed": HASHSEED["value"],
             "inconclusive_cases": n_inc,
             "inconclusive_detail": inconcl[:5],
             "known_findings_seen": known_seen,
